@@ -260,6 +260,58 @@ def extreme_and_seed_stream(env: Env, out: Outcome, n: int) -> None:
             out.violations.append(Violation("C07/jitter_ignores_seed", f"wait_random gives {len(vals)} distinct values for 8 seeds", case))
 
 
+def budget_stream(env: Env, out: Outcome, n: int) -> None:
+    """C05, implementation only: how many times a failing step runs under a policy whose stop condition is a NESTED tree
+    (named constructors and `&` / `|` mixed, both combinator kinds inside each other): the retry loop `next(elapsed, failures, ..)`
+    must give up at the first failure count at which the Boolean tree of the leaves' own answers is true."""
+    rng = random.Random(env.rng.randrange(1 << 30))
+    for _ in range(n):
+        m = rng.randint(3, 4)
+        leaves = []
+        for _i in range(m):
+            r = rng.random()
+            if r < 0.6:
+                a = rng.choice([1, 2, 3, 4, 5, 7])
+                leaves.append((RP.stop_after_attempt(a), f"att{a}"))
+            elif r < 0.9:
+                d = rng.choice([1, 2, 5, 10, 3600])
+                leaves.append((RP.stop_after_delay(d), f"del{d}"))
+            else:
+                leaves.append((RP.stop_never(), "never"))
+
+        def tree(depth: int) -> tuple[Any, Any, str]:
+            if depth == 0:
+                i = rng.randrange(m)
+                return leaves[i][0], (lambda k, el, up, i=i: bool(leaves[i][0](k, el, upcoming_sleep=up))), leaves[i][1]
+            la, fa, sa = tree(depth - 1)
+            lb, fb, sb = tree(rng.randrange(depth))
+            named = rng.random() < 0.5
+            if rng.random() < 0.5:
+                return (RP.stop_any(la, lb) if named else la | lb), (lambda k, el, up: fa(k, el, up) or fb(k, el, up)), f"any({sa},{sb})"
+            return (RP.stop_all(la, lb) if named else la & lb), (lambda k, el, up: fa(k, el, up) and fb(k, el, up)), f"all({sa},{sb})"
+
+        obj, want, shape = tree(rng.randint(2, 3))
+        w = rng.choice([0, 1, 2])
+        pol = RP.retry_policy(stop=obj, wait=RP.wait_fixed(w))
+        exc = mk_exc(0)
+        got = exp = None
+        for k in range(1, 41):
+            el = (k - 1) * w
+            if got is None and pol.next(el, k, exc, seed=0) is None:
+                got = k
+            if exp is None and want(k, el, w):
+                exp = k
+            if got is not None and exp is not None:
+                break
+        out.evaluations += 1
+        out.count("budget:nested:" + ("bounded" if exp is not None else "unbounded"))
+        out.nontrivial(("budget", shape, w))
+        if got != exp:
+            out.violations.append(Violation("C05/attempt_budget_nested_stop",
+                                            f"stop={shape}, wait_fixed({w}): a step that always fails is executed {got} times, the policy allows exactly {exp}",
+                                            {"shape": shape, "wait": w}))
+
+
 def algebra_stream(env: Env, out: Outcome, n: int) -> None:
     """Implementation only: the combinators against their components (exact float equality: same operations)."""
     rng = random.Random(env.rng.randrange(1 << 30))
